@@ -51,9 +51,10 @@ def _shift(d: _dt.date, years=0, months=0, weeks=0, days=0) -> _dt.date:
 class World:
     _STATIC: dict[tuple[int, str], tuple] = {}
 
-    def __init__(self, m: core.Mod, cls: str, skipped=frozenset(), repeated=frozenset(), extra: dict[str, ast.FunctionDef] | None = None):
+    def __init__(self, m: core.Mod, cls: str, skipped=frozenset(), repeated=frozenset(), extra: dict[str, ast.FunctionDef] | None = None, missing=frozenset()):
         self.m, self.cls = m, cls
         self.skipped, self.repeated = frozenset(skipped), frozenset(repeated)
+        self.missing = frozenset(missing)        # whole days that do not exist in the zone (the date line moved: Pacific/Apia 2011-12-30): a wall time on one is the same wall time a day later
         key = (id(m), cls)
         if key not in World._STATIC:
             meths: dict[str, ast.FunctionDef] = dict(extra or {})
@@ -83,6 +84,8 @@ class World:
     def place(self, d: _dt.date, mins: int, fold: int, sub: tuple[int, int] = (0, 0)) -> Obj:
         """the value Timezone.convert leaves: a skipped wall time is moved with datetime arithmetic, which resets the fold to 0
         (`sub`: the seconds and microseconds below the minute, carried along)"""
+        if self.cls == "DateTime" and d in self.missing:
+            return self.datetime(d + _dt.timedelta(days=1), mins, 0, sub=sub)
         if d in self.skipped and 0 <= mins < 60:
             return self.datetime(*self.resolve(d, mins, fold), 0, sub=sub)
         return self.datetime(d, mins, fold, sub=sub)
